@@ -1438,3 +1438,36 @@ Proof.
   rewrite !andb_true_iff. intros [[[_ HS] _] _]. exists gs. split; [reflexivity|].
   now apply same_constraints_spec.
 Qed.
+
+(* ================================================================================================================ *)
+(* L. repeated requests for the order: refusal is persistent and changes nothing, an accepted order is kept         *)
+(* ================================================================================================================ *)
+Definition coherent (m : manager) : Prop :=
+  m_cache m = None \/
+  exists o, m_cache m = Some o /\ kahn res_eqb (nodes_of (m_groups m)) (edges_of (m_groups m)) = Ok o.
+
+Lemma request_coherent m : coherent m ->
+  snd (request m) = sort_groups (m_groups m) /\ coherent (fst (request m)) /\ m_groups (fst (request m)) = m_groups m.
+Proof.
+  intros [Hc|[o [Hc Hk]]]; unfold request, sort_groups, producers_in; rewrite Hc.
+  - destruct (kahn res_eqb (nodes_of (m_groups m)) (edges_of (m_groups m))) as [o|e|] eqn:K; simpl.
+    + split; [reflexivity|]. split; [|reflexivity]. right. exists o. simpl. auto.
+    + split; [reflexivity|]. split; [now left|reflexivity].
+    + split; [reflexivity|]. split; [now left|reflexivity].
+  - rewrite Hk. simpl. split; [reflexivity|]. split; [|reflexivity]. right. eauto.
+Qed.
+
+(* every request, however many are made, gets the answer of the first one: the function sort_groups of the registrations *)
+Theorem requests_all_equal n : forall m, coherent m -> forall r, In r (requests n m) -> r = sort_groups (m_groups m).
+Proof.
+  induction n as [|n IH]; intros m Hm r Hr; [contradiction|]. simpl in Hr.
+  destruct (request_coherent m Hm) as [H1 [H2 H3]]. destruct (request m) as [m' r0]. simpl in *.
+  destruct Hr as [<-|Hr]; [exact H1|]. rewrite <- H3. now apply IH.
+Qed.
+
+(* a refused request leaves the manager exactly as it was: nothing is cached, nothing is registered or forgotten *)
+Theorem refused_request_inert m e : snd (request m) = Rejected e -> fst (request m) = m.
+Proof.
+  unfold request. destruct (m_cache m) as [o|]; [discriminate|].
+  destruct (kahn res_eqb (nodes_of (m_groups m)) (edges_of (m_groups m))); simpl; try discriminate; reflexivity.
+Qed.
